@@ -5,8 +5,8 @@
 //!                   against every path of the path pool: set.matches == [0] iff matcher.is_match
 //!   mode `pairs`  : every ordered pair from a smaller glob pool in one set: set.matches == indices of
 //!                   the globs that match individually (index merging, shared strategy tables)
-//!   mode `doc`    : single globs of the documented subset against an independent backtracking matcher
-//!                   written from the syntax section of the crate documentation
+//!   mode `alternates`: a glob with one level of alternates matches iff one of its textual expansions does
+//!                   ("{a,b} matches a or b where a and b are arbitrary glob patterns"), same matcher both sides
 //!
 //! The oracle of `single`/`pairs` is the property's own statement (no hand-written semantics).
 use globset::{Candidate, Glob, GlobBuilder, GlobMatcher, GlobSet, GlobSetBuilder};
@@ -59,8 +59,8 @@ fn paths(max: usize) -> Vec<Vec<u8>> {
         out.extend(next.iter().cloned());
         cur = next;
     }
-    // a few byte paths outside the alphabet (not UTF-8, glob meta characters, backslash)
-    let extra: &[u8] = &[0xFF, b'*', b'\\', b'a', b'/', b'.'];
+    // a few byte paths outside the alphabet (not UTF-8, glob meta characters, backslash, a newline byte)
+    let extra: &[u8] = &[0xFF, b'*', b'\\', b'a', b'/', b'.', b'\n'];
     for &x in extra {
         for &y in extra {
             out.push(vec![x, y]);
@@ -221,11 +221,79 @@ fn pool_contains(_w: &str) -> bool {
     false
 }
 
+/// "`{a,b}` matches `a` or `b` where `a` and `b` are arbitrary glob patterns": a glob with one level of
+/// alternates matches a path iff one of its textual expansions does (the real matcher on both sides)
+fn mode_alternates(max_path: usize) -> Option<Failure> {
+    const BR: &[&str] = &["a", "/", "*", "**"];
+    let branches = words(BR, 3);
+    let ps = paths(max_path);
+    let n = branches.len();
+    eprintln!("alternates: {} x {} branch pairs x 2 prefixes x 2 suffixes x literal_separator x {} paths", n, n, ps.len());
+    run_parallel(n, |i| {
+        let cands: Vec<Candidate<'_>> = ps.iter().map(|p| Candidate::new(Path::new(OsStr::from_bytes(p)))).collect();
+        for j in 0..n {
+            for pre in ["", "b/"] { for suf in ["", "/b"] { for opts in [0u32, 1] {
+                let alt = format!("{}{{{},{}}}{}", pre, branches[i], branches[j], suf);
+                // the glob `**` on its own is a documented special case ("match everything") that a branch `**`
+                // of an alternation is not: such expansions are not compared
+                if format!("{}{}{}", pre, branches[i], suf) == "**" || format!("{}{}{}", pre, branches[j], suf) == "**" { continue; }
+                // `**` is documented for three positions only (`**/` at the start, `/**` at the end, `/**/`
+                // inside).  How a `**` whose slashes lie OUTSIDE the braces behaves is not documented, so only
+                // branches whose every `**` has its recursive form inside the branch itself are compared:
+                // preceded by `/` in the branch, and followed by `/` in the branch or ending the whole glob
+                let inside = |b: &str| -> bool {
+                    let bytes = b.as_bytes();
+                    let mut k = 0;
+                    while k + 1 < bytes.len() + 1 && k + 2 <= bytes.len() {
+                        if &bytes[k..k + 2] == b"**" {
+                            let before_ok = k > 0 && bytes[k - 1] == b'/';
+                            let after_ok = if k + 2 < bytes.len() { bytes[k + 2] == b'/' } else { suf.is_empty() };
+                            if !(before_ok && after_ok) { return false; }
+                            k += 2;
+                        } else { k += 1; }
+                    }
+                    true
+                };
+                if !inside(&branches[i]) || !inside(&branches[j]) { continue; }
+                if std::env::var("VERIF_GLOB_ALL").is_ok() {
+                    if let (Some(a), Some(x), Some(y)) = (build(&alt, opts), build(&format!("{}{}{}", pre, branches[i], suf), opts), build(&format!("{}{}{}", pre, branches[j], suf), opts)) {
+                        let (ma, mx, my) = (a.compile_matcher(), x.compile_matcher(), y.compile_matcher());
+                        if let Some((pi, _)) = cands.iter().enumerate().find(|(_, c)| ma.is_match_candidate(c) != (mx.is_match_candidate(c) || my.is_match_candidate(c))) {
+                            println!("ALL alt={:?} opts={} path={:?} alt={} x={} y={}", alt, opts, String::from_utf8_lossy(&ps[pi]), ma.is_match_candidate(&cands[pi]), mx.is_match_candidate(&cands[pi]), my.is_match_candidate(&cands[pi]));
+                        }
+                    }
+                    continue;
+                }
+                let (ga, gx, gy) = match (build(&alt, opts), build(&format!("{}{}{}", pre, branches[i], suf), opts), build(&format!("{}{}{}", pre, branches[j], suf), opts)) {
+                    (Some(a), Some(x), Some(y)) => (a, x, y),
+                    _ => continue,
+                };
+                let (ma, mx, my) = (ga.compile_matcher(), gx.compile_matcher(), gy.compile_matcher());
+                for (pi, c) in cands.iter().enumerate() {
+                    let (got, want) = (ma.is_match_candidate(c), mx.is_match_candidate(c) || my.is_match_candidate(c));
+                    if got != want {
+                        return Some(Failure { key: (i, opts, j * 100000 + pi), globs: vec![alt.clone(), format!("{}{}{}", pre, branches[i], suf), format!("{}{}{}", pre, branches[j], suf)], opts, path: ps[pi].clone(),
+                            what: format!("the glob with alternates (first) matches = {}, its two expansions match = {} / {}", got, mx.is_match_candidate(c), my.is_match_candidate(c)) });
+                    }
+                }
+            }}}
+        }
+        None
+    })
+}
+
 fn replay() -> i32 {
     let globs: Vec<String> = std::env::var("VERIF_REPLAY_GLOBS").unwrap().split(',').map(|h| String::from_utf8(unhex(h)).unwrap()).collect();
     let opts: u32 = std::env::var("VERIF_REPLAY_OPTS").unwrap().parse().unwrap();
     let p = std::env::var("VERIF_REPLAY_PATH").unwrap();
     let path = if p == "-" { vec![] } else { unhex(&p) };
+    if std::env::var("VERIF_GLOB_MODE").map(|m| m == "alternates").unwrap_or(false) {
+        let ms: Vec<GlobMatcher> = globs.iter().map(|g| build(g, opts).expect("replayed glob is valid").compile_matcher()).collect();
+        let c = Candidate::new(Path::new(OsStr::from_bytes(&path)));
+        let (got, want) = (ms[0].is_match_candidate(&c), ms[1].is_match_candidate(&c) || ms[2].is_match_candidate(&c));
+        println!("replay: {:?} matches {:?} = {}, expansions {:?} / {:?} = {} / {}", globs[0], String::from_utf8_lossy(&path), got, globs[1], globs[2], ms[1].is_match_candidate(&c), ms[2].is_match_candidate(&c));
+        return if got != want { 1 } else { 0 };
+    }
     let gs: Vec<Glob> = globs.iter().map(|g| build(g, opts).expect("replayed glob is valid")).collect();
     let ms: Vec<GlobMatcher> = gs.iter().map(|g| g.compile_matcher()).collect();
     let set = set_of(&gs);
@@ -252,6 +320,7 @@ fn main() {
     let r = match mode.as_str() {
         "single" => mode_single(toks, plen),
         "pairs" => mode_pairs(toks, plen),
+        "alternates" => mode_alternates(plen),
         other => panic!("unknown mode {}", other),
     };
     match r {
